@@ -4,6 +4,7 @@ import (
 	"encoding/json"
 	"fmt"
 	"os"
+	"reflect"
 	"strings"
 	"testing"
 	"time"
@@ -25,73 +26,101 @@ func genTimePtr(t *rapid.T, label string) *time.Time {
 	return &tm
 }
 
+// genPersisted fills every field of the persisted structs, found by reflection (so fields added later are
+// included and a field that disappears does not stop the harness from compiling), with generated values.
 func genPersisted(t *rapid.T) *store.PersistedData {
 	n := rapid.IntRange(0, 4).Draw(t, "nJobs")
 	d := &store.PersistedData{}
 	for i := 0; i < n; i++ {
-		var id uuid.UUID
-		copy(id[:], rapid.SliceOfN(rapid.Byte(), 16, 16).Draw(t, "id"))
-		j := store.PersistedJob{
-			ID:        id,
-			Pipeline:  payload.GenString(t, "pipeline"),
-			Completed: rapid.Bool().Draw(t, "completed"),
-			Canceled:  rapid.Bool().Draw(t, "canceled"),
-			Created:   payload.GenTime(t, "created"),
-			Start:     genTimePtr(t, "start"),
-			End:       genTimePtr(t, "end"),
-			User:      payload.GenString(t, "user"),
-			Variables: payload.GenVariables(t),
-		}
-		nt := rapid.IntRange(0, 3).Draw(t, "nTasks")
-		for k := 0; k < nt; k++ {
-			pt := store.PersistedTask{
-				Name:         payload.GenString(t, "taskName"),
-				AllowFailure: rapid.Bool().Draw(t, "allowFailure"),
-				Status:       rapid.SampledFrom([]string{"waiting", "running", "done", "error", "canceled", "skipped", ""}).Draw(t, "status"),
-				Start:        genTimePtr(t, "taskStart"),
-				End:          genTimePtr(t, "taskEnd"),
-				Skipped:      rapid.Bool().Draw(t, "skipped"),
-				ExitCode:     int16(rapid.IntRange(-32768, 32767).Draw(t, "exitCode")),
-				Errored:      rapid.Bool().Draw(t, "errored"),
-			}
-			for c := rapid.IntRange(0, 2).Draw(t, "nScript"); c > 0; c-- {
-				pt.Script = append(pt.Script, payload.GenString(t, "cmd"))
-			}
-			for c := rapid.IntRange(0, 2).Draw(t, "nDeps"); c > 0; c-- {
-				pt.DependsOn = append(pt.DependsOn, payload.GenString(t, "dep"))
-			}
-			if rapid.Bool().Draw(t, "hasError") {
-				e := payload.GenNonEmptyString(t, "error")
-				pt.Error = &e
-			}
-			j.Tasks = append(j.Tasks, pt)
-		}
+		var j store.PersistedJob
+		fillStruct(t, reflect.ValueOf(&j).Elem())
 		d.Jobs = append(d.Jobs, j)
 	}
 	return d
+}
+
+var (
+	timeType    = reflect.TypeOf(time.Time{})
+	uuidType    = reflect.TypeOf(uuid.UUID{})
+	varsType    = reflect.TypeOf(map[string]interface{}{})
+	durationTyp = reflect.TypeOf(time.Duration(0))
+)
+
+func fillStruct(t *rapid.T, v reflect.Value) {
+	for i := 0; i < v.NumField(); i++ {
+		f, name := v.Field(i), v.Type().Field(i).Name
+		if !f.CanSet() {
+			continue
+		}
+		fillValue(t, f, name)
+	}
+}
+
+func fillValue(t *rapid.T, f reflect.Value, name string) {
+	switch {
+	case f.Type() == timeType:
+		f.Set(reflect.ValueOf(payload.GenTime(t, name)))
+	case f.Type() == uuidType:
+		var id uuid.UUID
+		copy(id[:], rapid.SliceOfN(rapid.Byte(), 16, 16).Draw(t, name))
+		f.Set(reflect.ValueOf(id))
+	case f.Type() == varsType:
+		f.Set(reflect.ValueOf(payload.GenVariables(t)))
+	case f.Type() == durationTyp:
+		f.SetInt(rapid.Int64Range(0, int64(48*time.Hour)).Draw(t, name))
+	case name == "Status" && f.Kind() == reflect.String:
+		f.SetString(rapid.SampledFrom([]string{"waiting", "running", "done", "error", "canceled", "skipped", ""}).Draw(t, name))
+	case name == "Error" && f.Kind() == reflect.Ptr && f.Type().Elem().Kind() == reflect.String:
+		if rapid.Bool().Draw(t, "hasError") {
+			e := payload.GenNonEmptyString(t, "error")
+			f.Set(reflect.ValueOf(&e))
+		}
+	case f.Kind() == reflect.Bool:
+		f.SetBool(rapid.Bool().Draw(t, name))
+	case f.Kind() == reflect.String:
+		f.SetString(payload.GenString(t, name))
+	case f.Kind() == reflect.Int16:
+		f.SetInt(int64(rapid.IntRange(-32768, 32767).Draw(t, name)))
+	case f.Kind() == reflect.Int8:
+		f.SetInt(int64(rapid.IntRange(-128, 127).Draw(t, name)))
+	case f.Kind() == reflect.Int || f.Kind() == reflect.Int32 || f.Kind() == reflect.Int64:
+		f.SetInt(int64(rapid.Int32().Draw(t, name)))
+	case f.Kind() == reflect.Uint8 || f.Kind() == reflect.Uint16 || f.Kind() == reflect.Uint32 || f.Kind() == reflect.Uint || f.Kind() == reflect.Uint64:
+		f.SetUint(uint64(rapid.IntRange(0, 255).Draw(t, name)))
+	case f.Kind() == reflect.Ptr:
+		if rapid.Bool().Draw(t, name+"Set") {
+			p := reflect.New(f.Type().Elem())
+			fillValue(t, p.Elem(), name)
+			f.Set(p)
+		}
+	case f.Kind() == reflect.Slice:
+		max := 2
+		if f.Type().Elem().Kind() == reflect.Struct {
+			max = 3
+		}
+		n := rapid.IntRange(0, max).Draw(t, "n"+name)
+		for k := 0; k < n; k++ {
+			e := reflect.New(f.Type().Elem()).Elem()
+			fillValue(t, e, name)
+			f.Set(reflect.Append(f, e))
+		}
+	case f.Kind() == reflect.Struct:
+		fillStruct(t, f)
+	case f.Kind() == reflect.Map && f.Type().Key().Kind() == reflect.String && f.Type().Elem().Kind() == reflect.String:
+		m := reflect.MakeMap(f.Type())
+		for k := rapid.IntRange(0, 2).Draw(t, "n"+name); k > 0; k-- {
+			m.SetMapIndex(reflect.ValueOf(payload.GenString(t, name+"Key")).Convert(f.Type().Key()), reflect.ValueOf(payload.GenString(t, name+"Val")).Convert(f.Type().Elem()))
+		}
+		f.Set(m)
+	}
+	// other kinds stay at their zero value
 }
 
 // canon renders persisted data canonically with encoding/json (times in UTC, empty == nil).
 func canon(d *store.PersistedData) string {
 	c := store.PersistedData{}
 	for _, j := range d.Jobs {
-		j.Created = j.Created.UTC()
-		j.Start, j.End = utcp(j.Start), utcp(j.End)
-		if len(j.Variables) == 0 {
-			j.Variables = nil
-		}
-		var ts []store.PersistedTask
-		for _, t := range j.Tasks {
-			t.Start, t.End = utcp(t.Start), utcp(t.End)
-			if len(t.Script) == 0 {
-				t.Script = nil
-			}
-			if len(t.DependsOn) == 0 {
-				t.DependsOn = nil
-			}
-			ts = append(ts, t)
-		}
-		j.Tasks = ts
+		normalise(reflect.ValueOf(&j).Elem())
 		c.Jobs = append(c.Jobs, j)
 	}
 	b, err := json.Marshal(c)
@@ -99,6 +128,49 @@ func canon(d *store.PersistedData) string {
 		return "unmarshalable: " + err.Error()
 	}
 	return string(b)
+}
+
+// normalise maps values that the codec may legitimately not distinguish onto one representative: times to UTC,
+// empty slices and maps to nil. It copies slices before it touches their elements.
+func normalise(v reflect.Value) {
+	switch {
+	case v.Type() == timeType:
+		if v.CanSet() {
+			v.Set(reflect.ValueOf(v.Interface().(time.Time).UTC()))
+		}
+	case v.Kind() == reflect.Ptr:
+		if !v.IsNil() && v.CanSet() {
+			p := reflect.New(v.Type().Elem())
+			p.Elem().Set(v.Elem())
+			normalise(p.Elem())
+			v.Set(p)
+		}
+	case v.Kind() == reflect.Slice:
+		if v.Len() == 0 {
+			if v.CanSet() {
+				v.Set(reflect.Zero(v.Type()))
+			}
+			return
+		}
+		if v.CanSet() {
+			c := reflect.MakeSlice(v.Type(), v.Len(), v.Len())
+			reflect.Copy(c, v)
+			for i := 0; i < c.Len(); i++ {
+				normalise(c.Index(i))
+			}
+			v.Set(c)
+		}
+	case v.Kind() == reflect.Map:
+		if v.Len() == 0 && v.CanSet() {
+			v.Set(reflect.Zero(v.Type()))
+		}
+	case v.Kind() == reflect.Struct && v.Type() != uuidType:
+		for i := 0; i < v.NumField(); i++ {
+			if v.Field(i).CanSet() {
+				normalise(v.Field(i))
+			}
+		}
+	}
 }
 
 func utcp(t *time.Time) *time.Time {
